@@ -14,25 +14,30 @@ import (
 
 // A role is a program in which one user identifier is the placeholder NAME.
 type nameRole struct {
-	name string
-	src  string
+	name  string
+	src   string
+	files map[string]string // further files of the program (imports)
 }
+
+var c10Counter = map[string]string{"counter.tsh": "calls := 0\nfunc bump() int {\n\tcalls = calls + 1\n\treturn calls\n}\nfunc Next() int {\n\treturn bump() * 100\n}\n"}
 
 func nameRoles() []nameRole {
 	return []nameRole{
-		{"global-variable", "NAME := 3\nq := []int{1}\nq[2] = NAME\nfor i := 0; i < 2; i++ {\n\tNAME = NAME + i\n}\nt := \"abc\"\nprint(NAME, len(q), t[1:2], NAME > 2 && true)\n"},
-		{"global-string-variable", "NAME := \"v\"\nNAME = NAME + \"w\"\nprint(NAME, len(NAME), NAME == \"vw\")\nwrite(\"o.txt\", NAME)\nprint(read(\"o.txt\"))\n"},
-		{"local-variable", "func f(a int) int {\n\tNAME := a * 2\n\tw := []int{NAME}\n\tw[1] = NAME + 1\n\treturn w[1] + NAME\n}\nz := 1\nprint(f(z), z)\n"},
-		{"parameter", "func f(NAME int, b int) (int, int) {\n\tfor i := 0; i < 2; i++ {\n\t\tb = b + NAME\n\t}\n\treturn NAME, b\n}\nx, y := f(2, 3)\nprint(x, y)\n"},
-		{"function-name", "func NAME(a int) int {\n\treturn a + 1\n}\nfunc g(a int) int {\n\treturn NAME(a) * 2\n}\ns := []int{1}\ns[1] = g(1)\nu := \"tv\"\nprint(NAME(1), s[1], u[0:1])\n"},
-		{"loop-variable", "acc := 0\nfor NAME := 0; NAME < 3; NAME++ {\n\tacc = acc + NAME\n}\nfor i, NAME := range []int{4, 5} {\n\tacc = acc + i * NAME\n}\nprint(acc)\n"},
-		{"copy-destination", "src := []int{3, 7, 9}\nNAME := []int{}\nn := copy(NAME, src)\nprint(n, len(NAME), NAME[1], NAME[2])\n"},
-		{"global-next-to-function-local", "NAME := 1\nfunc g() int {\n\tx := 42\n\tNAME = NAME + 0\n\treturn x\n}\nfunc h(y int) int {\n\treturn y + g()\n}\nprint(g(), h(1), NAME)\n"},
-		{"local-next-to-callee-local", "func r() int {\n\tn := 20\n\treturn n\n}\nfunc f() int {\n\tNAME := 2\n\tk := r()\n\treturn k + NAME\n}\nprint(f())\n"},
-		{"second-name-of-short-definition", "Cap := 10\nstep, NAME := 1, 2\nprint(Cap, step, NAME)\nCap = Cap + NAME\nprint(Cap, NAME)\n"},
-		{"local-next-to-parameter", "func f(Rst int, d int) int {\n\tq, NAME := Rst / d, Rst % d\n\treturn q + NAME + Rst\n}\nprint(f(7, 2))\n"},
-		{"target-of-multi-result-call", "func dm(a int, b int) (int, int) {\n\treturn a / b, a % b\n}\nfunc use() int {\n\tNAME, rest := dm(7, 2)\n\tNAME, rest = dm(NAME + 9, rest + 1)\n\treturn NAME * 10 + rest\n}\nNAME, r2 := dm(9, 4)\nprint(NAME, r2, use())\n"},
-		{"slice-variable", "NAME := []string{\"a\"}\nNAME[1] = \"b\"\nc := []string{}\nprint(copy(c, NAME), len(NAME), NAME[1], c[0])\n"},
+		{"global-variable", "NAME := 3\nq := []int{1}\nq[2] = NAME\nfor i := 0; i < 2; i++ {\n\tNAME = NAME + i\n}\nt := \"abc\"\nprint(NAME, len(q), t[1:2], NAME > 2 && true)\n", nil},
+		{"global-string-variable", "NAME := \"v\"\nNAME = NAME + \"w\"\nprint(NAME, len(NAME), NAME == \"vw\")\nwrite(\"o.txt\", NAME)\nprint(read(\"o.txt\"))\n", nil},
+		{"local-variable", "func f(a int) int {\n\tNAME := a * 2\n\tw := []int{NAME}\n\tw[1] = NAME + 1\n\treturn w[1] + NAME\n}\nz := 1\nprint(f(z), z)\n", nil},
+		{"parameter", "func f(NAME int, b int) (int, int) {\n\tfor i := 0; i < 2; i++ {\n\t\tb = b + NAME\n\t}\n\treturn NAME, b\n}\nx, y := f(2, 3)\nprint(x, y)\n", nil},
+		{"function-name", "func NAME(a int) int {\n\treturn a + 1\n}\nfunc g(a int) int {\n\treturn NAME(a) * 2\n}\ns := []int{1}\ns[1] = g(1)\nu := \"tv\"\nprint(NAME(1), s[1], u[0:1])\n", nil},
+		{"loop-variable", "acc := 0\nfor NAME := 0; NAME < 3; NAME++ {\n\tacc = acc + NAME\n}\nfor i, NAME := range []int{4, 5} {\n\tacc = acc + i * NAME\n}\nprint(acc)\n", nil},
+		{"copy-destination", "src := []int{3, 7, 9}\nNAME := []int{}\nn := copy(NAME, src)\nprint(n, len(NAME), NAME[1], NAME[2])\n", nil},
+		{"global-next-to-function-local", "NAME := 1\nfunc g() int {\n\tx := 42\n\tNAME = NAME + 0\n\treturn x\n}\nfunc h(y int) int {\n\treturn y + g()\n}\nprint(g(), h(1), NAME)\n", nil},
+		{"local-next-to-callee-local", "func r() int {\n\tn := 20\n\treturn n\n}\nfunc f() int {\n\tNAME := 2\n\tk := r()\n\treturn k + NAME\n}\nprint(f())\n", nil},
+		{"second-name-of-short-definition", "Cap := 10\nstep, NAME := 1, 2\nprint(Cap, step, NAME)\nCap = Cap + NAME\nprint(Cap, NAME)\n", nil},
+		{"local-next-to-parameter", "func f(Rst int, d int) int {\n\tq, NAME := Rst / d, Rst % d\n\treturn q + NAME + Rst\n}\nprint(f(7, 2))\n", nil},
+		{"target-of-multi-result-call", "func dm(a int, b int) (int, int) {\n\treturn a / b, a % b\n}\nfunc use() int {\n\tNAME, rest := dm(7, 2)\n\tNAME, rest = dm(NAME + 9, rest + 1)\n\treturn NAME * 10 + rest\n}\nNAME, r2 := dm(9, 4)\nprint(NAME, r2, use())\n", nil},
+		{"global-next-to-imported-file", "import c \"counter.tsh\"\nNAME := 42\nprint(c.Next(), NAME)\nNAME = NAME + c.Next()\nprint(NAME)\n", c10Counter},
+		{"function-next-to-imported-file", "import c \"counter.tsh\"\nfunc NAME(a int) int {\n\treturn a * 2\n}\nprint(c.Next(), NAME(1), c.Next())\n", c10Counter},
+		{"slice-variable", "NAME := []string{\"a\"}\nNAME[1] = \"b\"\nc := []string{}\nprint(copy(c, NAME), len(NAME), NAME[1], c[0])\n", nil},
 	}
 }
 
@@ -94,6 +99,9 @@ func CheckC10(r *Run) int {
 		}
 		src := gosym.Concat(splitOn(role.src, "NAME", name)...)
 		c.FS.AddFile("/work/main.tsh", src)
+		for fn, content := range role.files {
+			c.FS.AddFile("/work/"+fn, gosym.Conc(content))
+		}
 		var script gosym.Str
 		var hasErr bool
 		gp := c.Try(func() { script, _, hasErr = c.Transpile("/work/main.tsh", "bash") })
@@ -141,6 +149,18 @@ func CheckC10(r *Run) int {
 			concrete[w] = true
 		}
 		var out []nameCand
+		// a path on which the identifier's bytes are fully determined: the code under check singles this spelling out
+		if res, m := c.Sat(); res == sym.Sat {
+			var same []*sym.Term
+			sp := make([]byte, n)
+			for i, b := range nameBytes {
+				sp[i] = byte(m[b.Name])
+				same = append(same, B.Eq(b, B.BV(m[b.Name], 8)))
+			}
+			if res2, _ := c.Sat(B.Not(B.And(same...))); res2 == sym.Unsat {
+				out = append(out, nameCand{Role: role.name, Spelling: string(sp), Because: "the control flow of the code under check singles out this spelling"})
+			}
+		}
 		var cw []string
 		for w := range concrete {
 			cw = append(cw, w)
@@ -216,7 +236,11 @@ func CheckC10(r *Run) int {
 	baseline := map[string]BashResult{}
 	run := func(role nameRole, spelling string) (BashResult, bool) {
 		src := strings.ReplaceAll(role.src, "NAME", spelling)
-		res, err := nat.RunDrv([]DrvReq{{Op: "transpile", Files: map[string]string{"main.tsh": src}, Main: "main.tsh", Target: "bash"}}, 30*time.Second)
+		files := map[string]string{"main.tsh": src}
+		for fn, content := range role.files {
+			files[fn] = content
+		}
+		res, err := nat.RunDrv([]DrvReq{{Op: "transpile", Files: files, Main: "main.tsh", Target: "bash"}}, 30*time.Second)
 		if err != nil || res[0].HasErr || res[0].Panic != "" {
 			return BashResult{}, false
 		}
